@@ -37,6 +37,10 @@ def mgr_slots(unit):
         if isinstance(g.get('init'), dict):
             from_init(g['init'], 'global %s' % g['name'])
     for fn in unit.funcs.values():
+        # compound literals `(struct upipe_mgr){ ... }` assigned at run time
+        for bid, st in fn.all_stmts():
+            from_init(st, 'function %s' % fn.name)
+    for fn in unit.funcs.values():
         d = {}
         for bid, s, x in fn.nodes():
             if is_assign(x) and x['op'] == '=':
